@@ -122,6 +122,12 @@ CLAIMED = {
         "Atomic unit = Dask task. dask.bag's own partitioning function is not modelled: the layout is read back from the bag.",
         "§6 C12",
     ),
+    "C15": (
+        "Lean 4 theorems: log-likelihood shifts by -sum log|a|, responsibilities invariant, statistics transform as N, aF+bN, a^2 S+2abF+b^2 N, ML M-step equivariant (floors transformed, no count floor active), MAP Spec means/variances equivariant and the pinned variance blend refuted (a = 2), linear scores invariant, channel-factor posterior invariant under the transformed ISV/JFA model, k-means assignments invariant under uniform scale + shift and distances under orthogonal maps; metamorphic original-vs-transformed runs on the implementation",
+        "Proof for all per-feature scales a != 0 and shifts b (k-means: all similarities). Tie: the kernels involved are tied to the code by C01-C03, C05-C08, C10, C11; here the log-likelihood and E-step kernels are re-run on transformed inputs (negative and widely different scales) and the metamorphic relations are observed on the implementation for likelihoods, ML/MAP training, linear scoring, ISV/JFA latents-scores-client means, i-vectors and k-means under rotations.",
+        "Real arithmetic. Known finding: MAP variance update not equivariant (D3, KNOWN-FINDING with a corpus witness). y, z latent invariance and i-vector invariance are observed on the implementation (same algebra as C15_latent_invariant; not separately proved).",
+        "§6 C15",
+    ),
 }
 
 NOT_YET = "check not built yet in this round (see DESIGN.md §8 order of work); not claimed"
